@@ -38,6 +38,7 @@ ELEMENTS = [
     gen(LIST, gen(LIST, cls(2))), gen(LIST, gen(LIST, cls(3))),
     gen(DICT, cls(STR)), gen(LIST, cls(2), cls(3)), gen(LIST, gen(LIST, cls(2), cls(3))),   # same origin, other number of arguments
     cls(SEQ), gen(SEQ, cls(2)), gen(SEQ, cls(3)), gen(LIST, cls(1)),                          # an origin above list: Sequence[...]; list[object]
+    {"k": "metaof", "m": "M1", "cs": [2, 3]},                                                  # the metaclass of A (and so of B) used as an annotation
     {"k": "any"},
 ]
 
@@ -48,6 +49,10 @@ def py_subelem(anc, x, y):
         return py_subelem(anc, x, cls(1))
     if x["k"] == "any":
         return py_subelem(anc, cls(1), y)
+    if x["k"] == "metaof":
+        return (y["k"] == "cls" and y["c"] == 1) or x == y
+    if y["k"] == "metaof":
+        return x["k"] == "cls" and x["c"] in y["cs"]
     if x["k"] == "cls" and y["k"] == "cls":
         return y["c"] in anc[x["c"]]
     if x["k"] == "gen" and y["k"] == "cls":
@@ -79,7 +84,7 @@ def build_world(rng, with_inst):
         nodes.append({"k": "inst", "c": 3})
         parents.append([len(nodes) - 1])
         inst_ids = [len(nodes) - 1, len(nodes)]
-    return {"elbase": ELBASE, "elbuiltin": BUILTIN, "elements": nodes, "parents": parents}, len(tys), inst_ids
+    return {"elbase": ELBASE, "elbuiltin": BUILTIN, "elmeta": {"2": "M1"}, "elements": nodes, "parents": parents}, len(tys), inst_ids
 
 
 def gen_jobs(tier, seed):
@@ -122,6 +127,8 @@ def gen_jobs(tier, seed):
         w["methods"] = methods
         calls = []
         for a in tynodes:
+            if w["elements"][a - 1]["k"] == "metaof":
+                continue
             if with_inst:
                 for b in inst + [1]:
                     calls.append(worlds.mkcall([a, b]))
@@ -143,7 +150,7 @@ def gen_jobs(tier, seed):
             calls = []
             for c in base_calls[:10]:
                 calls.append(c)
-                for e in rng.sample(tynodes, 3):
+                for e in rng.sample([n_ for n_ in tynodes if w["elements"][n_ - 1]["k"] != "metaof"], 3):
                     c2 = json.loads(json.dumps(c))
                     c2["kwn"], c2["kwa"] = ["k"], [{"c": e}]
                     calls.append(c2)
@@ -159,7 +166,7 @@ def gen_jobs(tier, seed):
                 m["posonly"] = len(m["pos"])
         if q % 11 == 5 and not with_inst:
             # a single method whose annotation is a union of type[...] arms: applicable to a passed type iff some arm admits it
-            a1, a2 = rng.sample(tynodes, 2)
+            a1, a2 = rng.sample([n_ for n_ in tynodes if w["elements"][n_ - 1]["k"] != "metaof"], 2)
             methods = [worlds.mkmethod("m1", 1, [1])]
             methods[0]["pos"] = [{"k": "union", "args": [worlds.cls(a1), worlds.cls(a2)]}]
             methods[0]["bare"] = False
